@@ -123,8 +123,8 @@ func checkUndo(r *ev.Run, p, c *hist.Node, nm chain.Named, newState bool, label 
 	d := c.DB.Copy()
 	bc := chain.NewNode(d, newState)
 	if err := bc.RevertHead(); err != nil {
-		// reported once through OnRevertFail when the search expands c; nothing more to compare
-		r.Outcome("revert-fails")
+		// same key as OnRevertFail (which only fires for states the search expands, i.e. not at the depth bound)
+		r.Violate("revert-head-fails "+label+" "+hist.LastOp(c)+c.Exotic(), map[string]any{"path": c.PathString(), "err": err.Error()})
 		return
 	}
 	compareWithTwin(r, "fresh", p, d, chain.NewNode(d, newState), head, nm, newState, label)
